@@ -496,6 +496,23 @@ func sizeBoundaryInputs(r *wk.Rand, s *gen.Shape, env *gen.Env) []any {
 	return out
 }
 
+// c02Rebuilt passes a type through the description of a scope that uses it and back (what a client holds of a
+// plugin's schema): the rebuilt type declares the same constraints. ok is false for types that cannot be described.
+func c02Rebuilt(t schema.Type) (rt schema.Type, ok bool) {
+	p, _, _, _ := wk.Guard(func() {
+		sc := schema.NewScopeSchema(schema.NewObjectSchema("R", map[string]*schema.PropertySchema{
+			"v": schema.NewPropertySchema(t, nil, true, nil, nil, nil, nil, nil)}))
+		rb, err := rebuildScope(sc)
+		if err != nil {
+			return
+		}
+		if o := rb.Objects()["R"]; o != nil && o.Properties()["v"] != nil {
+			rt = o.Properties()["v"].Type()
+		}
+	})
+	return rt, !p && rt != nil
+}
+
 func runC02(c *wk.Ctx) {
 	c.Meta("rule", "(a) ENUMERATED: int schemas over 5x5 min/max choices (absent, ordinary, 0, +-2^63 edges, min>max) x 3 unit settings; float schemas 5x5 bounds (incl. +-Inf, -0) x 2 unit settings; string schemas 4x4 length bounds x 4 patterns; bool; pattern; int enums with/without units; string and typed string enums - each against its boundary set (every bound and bound+-1, 0, +-1, +-2^63, 2^53+-1) in every Go representation (10 integer widths, float32/64, decimal / unit / malformed strings, boolean words in 3 casings, nil, containers, []byte, named scalar types). (b) SAMPLED: generated lists/maps/any (depth<=2) over generated scalars with valid inputs in random representations, CBOR images, near-boundary perturbations, exact size-boundary collections (min-1, min, max, max+1 entries). Oracle: an independent reference interpreter (internal/ref) with verdicts must-accept(value) / must-reject / unspecified; on unspecified only 'an accepted result satisfies every declared constraint' is required. Natives: every accepted result is mutated to violate exactly one constraint; Validate and Serialize must both reject it. non-trivial = the raw value sits on a boundary or is not in the native representation; distinct = hash(schema, raw)")
 	c.Meta("assumptions", []string{"the reference fixes only the conversions the statement names (integer/float widths, numeric strings, unit strings, boolean words); bool->number, float->string, named scalar types, bare numbers for unit schemas and colliding map keys are unspecified",
@@ -510,6 +527,7 @@ func runC02(c *wk.Ctx) {
 	nSampled := c.N(15000, 3000000)
 	total := int64(len(enum)) + nSampled
 	built := map[*gen.Shape]schema.Type{}
+	rebuilt := map[*gen.Shape]schema.Type{}
 	// unit strings are accepted through lazily built tables of the units definition: the very first uses, by several
 	// goroutines at once and mixed with formatting, must accept and reject exactly what a definition used by one
 	// goroutine does
@@ -543,6 +561,18 @@ func runC02(c *wk.Ctx) {
 			case int64, float64, string, bool:
 				judgeNativeForm(c, "C02", t, cs.shape, env, cs.raw, descr, "enumerated boundary set")
 			}
+			// the same schema as a client rebuilds it from the plugin's description
+			rt, rok := rebuilt[cs.shape]
+			if !rok {
+				rt, _ = c02Rebuilt(t)
+				rebuilt[cs.shape] = rt
+			}
+			if rt != nil {
+				c.Count("enumerated_on_rebuilt_schema")
+				if native, acc := judgeUnserialize(c, "C02", rt, cs.shape, env, gen.CopyRaw(cs.raw), descr+" (rebuilt from its description)", "enumerated boundary set, schema rebuilt from its description"); acc {
+					judgeNatives(c, "C02", r, rt, cs.shape, env, native, descr+" (rebuilt from its description)")
+				}
+			}
 			if idx%5003 == 0 {
 				c.Sample("enumerated", map[string]any{"schema": descr, "raw": fmt.Sprintf("%#v", cs.raw)})
 			}
@@ -559,6 +589,13 @@ func runC02(c *wk.Ctx) {
 		}
 		descr := shape.Describe()
 		c.Count("sampled:" + shape.Kind.String())
+		if idx%3 == 0 {
+			if rt, rok := c02Rebuilt(t); rok {
+				t = rt
+				descr += " (rebuilt from its description)"
+				c.Count("sampled_on_rebuilt_schema")
+			}
+		}
 		var inputs []struct {
 			raw    any
 			origin string
